@@ -138,3 +138,40 @@ Theorem header_left_refuted :
   hist_never_read pv_header_left_cfg 20 10 = Some (1, 5, None) /\
   hist_never_read_ok pv_header_set_cfg 20 10 = true.
 Proof. vm_compute. repeat split. Qed.
+
+(** The three histories together.  [found_again c bv h st]: an object that holds format [st] (0 = none) for a file opened with
+    header number [h] writes props in some format [w], and a fresh object of the same BSP version that reads the saved file
+    records [w], decodes the records with [w] and runs the writer's field ladder. *)
+Definition found_again (c : pv_cfg) (bv h st : N) : Prop :=
+  exists r w lw h' sz, write_props c st h = Some (Some (r, w, lw, h')) /\ size_of c w = Some sz /\
+                       read_sized c bv h' sz 0 = Some (Some (w, w, lw)).
+
+Theorem pv_property : forall c, pv_ok c = true ->
+  forall bv, In bv (c_bsp c) ->
+  (* the lump was empty when read: rejected, or the format recorded then is found again *)
+  (forall h, In h pv_hdrs -> read_empty c bv h 0 = Some None \/
+                             exists st, read_empty c bv h 0 = Some (Some st) /\ found_again c bv h st) /\
+  (* the lump was never read *)
+  (forall h, In h pv_hdrs -> found_again c bv h 0) /\
+  (* the caller named the format: kept by the reader of an empty lump, written under its own header number, and a fresh
+     reader finds a format of that header number and record size - the same one when no other member shares the pair *)
+  (forall m, 1 <= m <= N.of_nat (List.length (c_members c)) ->
+     exists h sz lw, hdr_of c m = Some h /\ size_of c m = Some sz /\ read_empty c bv h m = Some (Some m) /\
+                     write_props c m h = Some (Some (m, m, lw, h)) /\ read_sized c bv h sz m = Some (Some (m, m, lw)) /\
+                     (unique_pair c m = true -> read_sized c bv h sz 0 = Some (Some (m, m, lw)))).
+Proof.
+  intros c Hok bv Hbv. unfold pv_ok in Hok.
+  apply andb_true_iff in Hok. destruct Hok as [Hok _].
+  apply andb_true_iff in Hok. destruct Hok as [Hok Hnr].
+  apply andb_true_iff in Hok. destruct Hok as [Hfe Hnm].
+  split; [|split].
+  - intros h Hh. destruct (from_empty_total c Hfe bv h Hbv Hh) as [Hr|[st Hst]]; [left; exact Hr|right].
+    exists st. split; [exact Hst|]. exact (from_empty_stable c Hfe bv h Hbv Hh st Hst).
+  - intros h Hh. exact (never_read_stable c Hnr bv h Hbv Hh).
+  - intros m Hm.
+    destruct (named_detected c Hnm bv m Hbv Hm) as [lw [h [sz [d [ld [Hh [Hs [Hw [Hr [Hl [Hhd [Hsd [Hrm Hre]]]]]]]]]]]]].
+    exists h, sz, lw. repeat split; auto.
+    intros Hu. destruct (named_detected_unique c Hnm bv m Hbv Hm Hu) as [lw' [h' [sz' [Hh' [Hs' [Hw' Hr']]]]]].
+    rewrite Hh in Hh'. rewrite Hs in Hs'. injection Hh' as <-. injection Hs' as <-.
+    rewrite Hw in Hw'. injection Hw' as <-. exact Hr'.
+Qed.
